@@ -123,10 +123,30 @@ func (w *c07World) fail(tag, format string, a ...interface{}) {
 	w.c.Failf(tag, "%s\nhistory: %v", fmt.Sprintf(format, a...), w.trace)
 }
 
+// vfHookedWriter is a ResponseWriter that runs a callback when the handler first touches the response
+// (Header, WriteHeader or Write): the moment between a handler's work on its state and its answer.
+type vfHookedWriter struct {
+	*httptest.ResponseRecorder
+	hook func()
+	once sync.Once
+}
+
+func (h *vfHookedWriter) Header() http.Header         { h.once.Do(h.hook); return h.ResponseRecorder.Header() }
+func (h *vfHookedWriter) WriteHeader(code int)        { h.once.Do(h.hook); h.ResponseRecorder.WriteHeader(code) }
+func (h *vfHookedWriter) Write(b []byte) (int, error) { h.once.Do(h.hook); return h.ResponseRecorder.Write(b) }
+
 func (w *c07World) post(path string, req interface{}, resp interface{}) {
+	w.postHooked(path, req, resp, nil)
+}
+
+func (w *c07World) postHooked(path string, req interface{}, resp interface{}, hook func()) {
 	body, _ := json.Marshal(req)
 	rec := httptest.NewRecorder()
-	w.router.ServeHTTP(rec, httptest.NewRequest(http.MethodPost, path, bytes.NewReader(body)))
+	if hook != nil {
+		w.router.ServeHTTP(&vfHookedWriter{ResponseRecorder: rec, hook: hook}, httptest.NewRequest(http.MethodPost, path, bytes.NewReader(body)))
+	} else {
+		w.router.ServeHTTP(rec, httptest.NewRequest(http.MethodPost, path, bytes.NewReader(body)))
+	}
 	if rec.Code != 200 {
 		w.fail("c07.harness", "POST %s -> %d", path, rec.Code)
 	}
@@ -136,7 +156,9 @@ func (w *c07World) post(path string, req interface{}, resp interface{}) {
 }
 
 // fetchPayloads fetches a REST client's mailbox and returns the payloads.
-func (w *c07World) fetchPayloads(uuid string) []string {
+func (w *c07World) fetchPayloads(uuid string) []string { return w.fetchPayloadsHooked(uuid, nil) }
+
+func (w *c07World) fetchPayloadsHooked(uuid string, hook func()) []string {
 	var raw struct {
 		Error   string `json:"error"`
 		Bundles []struct {
@@ -146,7 +168,7 @@ func (w *c07World) fetchPayloads(uuid string) []string {
 			} `json:"canonicalBlocks"`
 		} `json:"bundles"`
 	}
-	w.post("/fetch", RestFetchRequest{UUID: uuid}, &raw)
+	w.postHooked("/fetch", RestFetchRequest{UUID: uuid}, &raw, hook)
 	var out []string
 	for _, b := range raw.Bundles {
 		for _, cb := range b.CanonicalBlocks {
@@ -696,6 +718,28 @@ func c07RaceBody(c *vk.Ctx, cs c07RaceCase) {
 		}
 		close(resume)
 		got = append(got, <-done...)
+	case "response-slow":
+		// a bundle arrives after the fetch has dealt with the mailbox and before its answer is written
+		got = append(got, w.fetchPayloadsHooked(uuid, func() {
+			w.seq++
+			sent := make(chan struct{})
+			go func() {
+				w.top.MessageReceiver() <- BundleMessage{Bundle: c07Bundle(c07Endpoints[0], "during", w.seq)}
+				close(sent)
+			}()
+			dl := time.Now().Add(200 * time.Millisecond)
+			for time.Now().Before(dl) && !achieved {
+				if v, ok := w.rest.mailbox.Load(uuid); ok {
+					for _, b := range v.([]bpv7.Bundle) {
+						if c07Payload(&b) == "during" {
+							achieved = true
+						}
+					}
+				}
+				time.Sleep(100 * time.Microsecond)
+			}
+		})...)
+		want = append(want, "during")
 	case "deliver-parked":
 		w.seq++
 		w.top.MessageReceiver() <- BundleMessage{Bundle: c07Bundle(c07Endpoints[0], "during", w.seq)}
@@ -730,7 +774,7 @@ func c07RaceBody(c *vk.Ctx, cs c07RaceCase) {
 func TestVerifC07MailboxRace(t *testing.T) {
 	log.SetOutput(io.Discard)
 	u := vk.Unit{Property: "C07", Name: "c07.mailbox-race",
-		Rule: "one REST mailbox with 0..3 bundles; a delivery and a fetch overlap; with schedule hooks the two lost-update orders are forced (fetch reads - delivery completes - fetch clears; delivery reads - fetch completes - delivery writes) and, unforced, left to the scheduler; oracle: all fetches together return every bundle put into the mailbox exactly once; non-trivial = forced interleaving achieved; distinct by case"}
+		Rule: "one REST mailbox with 0..3 bundles; a delivery and a fetch overlap; with schedule hooks the two lost-update orders are forced (fetch reads - delivery completes - fetch clears; delivery reads - fetch completes - delivery writes) and, unforced, left to the scheduler; in a third scenario the delivery is made from inside the fetch's ResponseWriter, i.e. after the handler dealt with the mailbox and before it encodes its answer; oracle: all fetches together return every bundle put into the mailbox exactly once; non-trivial = forced interleaving achieved; distinct by case"}
 	reps := 2
 	if vk.Tier() == "thorough" {
 		reps = 30
@@ -738,7 +782,7 @@ func TestVerifC07MailboxRace(t *testing.T) {
 	vk.Enumerate(t, u, false, func(yield func(c07RaceCase) bool) {
 		n := 0
 		for r := 0; r < reps; r++ {
-			for _, k := range []string{"fetch-parked", "deliver-parked"} {
+			for _, k := range []string{"fetch-parked", "deliver-parked", "response-slow"} {
 				for before := 0; before <= 3; before++ {
 					for _, f := range []bool{true, false} {
 						n++
